@@ -858,6 +858,23 @@ impl SrtpContext {
     }
 }
 
+/// Verification accessors (no logic): expose the rollover state and the private estimator.
+#[cfg(rustrtc_verif)]
+impl SrtpContext {
+    pub fn verif_set_index(&mut self, roc: u32, last_sequence: Option<u16>) {
+        self.rollover_counter = roc;
+        self.last_sequence = last_sequence;
+    }
+
+    pub fn verif_index(&self) -> (u32, Option<u16>) {
+        (self.rollover_counter, self.last_sequence)
+    }
+
+    pub fn verif_estimate_roc(&self, sequence: u16) -> u32 {
+        self.estimate_roc(sequence)
+    }
+}
+
 #[cfg(test)]
 mod tests {
     use super::*;
